@@ -212,6 +212,26 @@ class Check:
             self.model_failure("TLC %s / %s returned %d\n%s" % (module, tag, rc, out[-4000:]))
         return res
 
+    def tlaps(self, module, deps, timeout=600):
+        """Discharge the theorems of spec/<module>.tla with the TLA+ proof system (unbounded, machine-checked).  A failure is a
+        model failure: nothing in /repo can change it."""
+        d = self.path("tlaps-" + module)
+        os.makedirs(d, exist_ok=True)
+        for m in [module] + list(deps):
+            shutil.copy(os.path.join(SPEC, m + ".tla"), d)
+        t = time.time()
+        try:
+            p = subprocess.run(["tlapm", "--cleanfp", module + ".tla"], cwd=d, stdout=subprocess.PIPE, stderr=subprocess.STDOUT, text=True, timeout=timeout)
+            out = p.stdout
+        except (subprocess.TimeoutExpired, FileNotFoundError) as ex:
+            self.model_failure("tlapm failed to run on %s: %s" % (module, ex))
+        m = re.search(r"All (\d+) obligations? proved", out)
+        if not m:
+            self.model_failure("TLAPS did not prove every obligation of %s\n%s" % (module, out[-2000:]))
+        n = int(m.group(1))
+        self.cov.setdefault("tlaps", []).append({"module": module, "obligations": n, "proved": n, "wall_s": round(time.time() - t, 1)})
+        return n
+
     def model_failure(self, msg):
         print("MODEL-OR-INFRASTRUCTURE FAILURE (not a property violation):\n" + msg, flush=True)
         self.finish(force_rc=2)
